@@ -22,6 +22,15 @@ impl Sink {
             buf: String::with_capacity(4096),
         }
     }
+    #[cfg(miri)]
+    fn eat(&mut self) {
+        // interpreting a per-byte hash loop is the dominant cost under Miri; the renderings are
+        // still produced (that is what exercises the accessors), only their hash is cheapened
+        self.h = self.h.wrapping_mul(31).wrapping_add(self.buf.len() as u64);
+        self.bytes += self.buf.len() as u64;
+        self.buf.clear();
+    }
+    #[cfg(not(miri))]
     fn eat(&mut self) {
         for b in self.buf.as_bytes() {
             self.h ^= *b as u64;
@@ -31,13 +40,28 @@ impl Sink {
         self.buf.clear();
     }
     pub fn dbg<T: core::fmt::Debug>(&mut self, v: &T) {
+        if !RENDER.load(std::sync::atomic::Ordering::Relaxed) {
+            return;
+        }
         let _ = write!(self.buf, "{:?}", v);
         self.eat();
     }
     pub fn disp<T: core::fmt::Display>(&mut self, v: &T) {
+        if !RENDER.load(std::sync::atomic::Ordering::Relaxed) {
+            return;
+        }
         let _ = write!(self.buf, "{}", v);
         self.eat();
     }
+    #[cfg(miri)]
+    pub fn raw(&mut self, s: &[u8]) {
+        // touch first and last byte (bounds are what Miri watches), cheap hash
+        if let (Some(a), Some(b)) = (s.first(), s.last()) {
+            self.h = self.h.wrapping_mul(31).wrapping_add(*a as u64 + *b as u64);
+        }
+        self.bytes += s.len() as u64;
+    }
+    #[cfg(not(miri))]
     pub fn raw(&mut self, s: &[u8]) {
         for b in s {
             self.h ^= *b as u64;
@@ -48,6 +72,14 @@ impl Sink {
     pub fn num(&mut self, v: u64) {
         self.raw(&v.to_le_bytes());
     }
+}
+
+/// rendering (Debug / Display) can be switched off per case: under Miri formatting costs
+/// ~0.25 ms per byte and would leave no budget for the accessors themselves
+pub static RENDER: std::sync::atomic::AtomicBool = std::sync::atomic::AtomicBool::new(true);
+
+pub fn set_render(v: bool) {
+    RENDER.store(v, std::sync::atomic::Ordering::Relaxed);
 }
 
 thread_local! {
@@ -451,7 +483,10 @@ pub fn tcp_slice(cx: &mut Cx, t: &TcpSlice) -> bool {
     dbg(&h);
     raw(&h.to_bytes());
     num(h.header_len() as u64);
-    let ok2 = tcp_options_iter(cx, h.options.elements_iter(), h.options.len());
+    // (the owned header iterates over its own copy of the options)
+    let mut own = Cx::new(h.options.as_slice());
+    let ok2 = tcp_options_iter(&mut own, h.options.elements_iter(), h.options.len());
+    cx.bad.append(&mut own.bad);
     dbg(&t.calc_checksum_ipv4([1, 2, 3, 4], [5, 6, 7, 8]));
     dbg(&t.calc_checksum_ipv6([1; 16], [2; 16]));
     cx.calls(12);
@@ -827,7 +862,9 @@ pub fn transport_header(cx: &mut Cx, t: &TransportHeader) {
         TransportHeader::Udp(u) => raw(&u.to_bytes()),
         TransportHeader::Tcp(t) => {
             raw(&t.to_bytes());
-            let _ = tcp_options_iter(cx, t.options.elements_iter(), t.options.len());
+            let mut own = Cx::new(t.options.as_slice());
+            let _ = tcp_options_iter(&mut own, t.options.elements_iter(), t.options.len());
+            cx.bad.append(&mut own.bad);
         }
         TransportHeader::Icmpv4(i) => raw(&i.to_bytes()),
         TransportHeader::Icmpv6(i) => raw(&i.to_bytes()),
